@@ -298,7 +298,7 @@ def run_property(prop, tier, jobs, keep):
         load = os.getloadavg()[0]
     except OSError:
         load = 0.0
-    jobs = max(2, min(jobs, int((os.cpu_count() or 16) - load)))
+    jobs = max(4, min(jobs, int((os.cpu_count() or 16) - load / 2)))
     lock = threading.Condition()
     used = [0.0]
 
@@ -572,7 +572,7 @@ def main():
     ap.add_argument("prop", nargs="?")
     ap.add_argument("--tier", default=os.environ.get("VERIF_TIER") or "quick", choices=["quick", "thorough"])
     ap.add_argument("--replay")
-    ap.add_argument("--jobs", type=int, default=int(os.environ.get("VERIF_JOBS", "12")))
+    ap.add_argument("--jobs", type=int, default=int(os.environ.get("VERIF_JOBS", "14")))
     ap.add_argument("--keep", action="store_true")
     ap.add_argument("--only", help="(development) restrict to harnesses whose name contains this substring; evidence is not written")
     a = ap.parse_args()
